@@ -978,9 +978,13 @@ class Spec:
         if fn == 'allocated':
             # p refers to an object that exists in this state (not one the current path allocates later)
             x = ev(args[0])
+            esc = set(getattr(st, 'escaped', ()) or ())
+            private = [c for c in range(-st.nalloc, 0) if c not in esc]
             if isinstance(x.x, PAddr) and x.x.cid is not None:
-                return V('bool', z3.BoolVal(x.x.cid >= -st.nalloc))
-            return V('bool', Addr.aid(ex.term(x)) >= -st.nalloc)
+                return V('bool', z3.BoolVal(x.x.cid >= -st.nalloc and x.x.cid not in private))
+            a = Addr.aid(ex.term(x))
+            # exists now, and is not one of the objects only this path can reach (allocated here, address never stored)
+            return V('bool', z3.And(a >= -st.nalloc, *[a != c for c in private]))
         if fn == 'fresh':
             x = ev(args[0])
             if isinstance(x.x, PAddr) and x.x.cid is not None:
